@@ -279,7 +279,13 @@ func Run(sc *Scenario, outDir string) Outcome {
 		return out
 	}
 	defer s.Close()
+	_ = s.Rec.StreamTo(filepath.Join(outDir, sc.ID+".partial.ndjson"))
+	defer os.Remove(filepath.Join(outDir, sc.ID+".partial.ndjson"))
+	defer s.Rec.CloseStream()
 	r := &runner{s: s, pending: map[string]chan struct{}{}, invTags: map[string]bool{}, marks: map[string]int{}, opWait: 20 * time.Second}
+	if sc.Opt.OpWaitMs > 0 {
+		r.opWait = time.Duration(sc.Opt.OpWaitMs) * time.Millisecond
+	}
 	var wg sync.WaitGroup
 	for i := range sc.Ops {
 		op := &sc.Ops[i]
